@@ -45,7 +45,7 @@ EXC_PARENTS = {
     "ZeroDivisionError": "ArithmeticError", "ArithmeticError": "Exception",
     "AssertionError": "Exception", "NotImplementedError": "RuntimeError",
     "RuntimeError": "Exception", "LinAlgError": "ValueError", "Exception": "BaseException",
-    "ImportError": "Exception", "UnboundLocalError": "NameError", "NameError": "Exception",
+    "ImportError": "Exception", "ValidationError": "ValueError", "UnboundLocalError": "NameError", "NameError": "Exception",
 }
 
 
